@@ -1,16 +1,28 @@
 (* Correspondence for C08 (micro part): reification of answer states and Run. *)
 From Coq Require Import List NArith ZArith Bool.
-From GMK Require Import Term Unify Goal Stream Reify CorrBase Corr01 Corr02.
+From GMK Require Import Term Unify Goal Stream Reify Reflect GCore CorrBase Corr01 Corr02.
 Import ListNotations.
 
 Inductive case08 :=
 | CReify (q : N) (s : subst) (c : N) (out : term)                 (* ReifyIntVarFromState(q)(&State{s,c}) = out *)
 | CRun (ds : defs) (g : goal) (n : Z) (fuel : nat) (outs : list term)  (* micro.Run(n, g) = outs *)
-| CReifyS (v : term) (out : subst).                                (* reifyS(v) = out *)
+| CReifyS (v : term) (out : subst)                                 (* reifyS(v) = out *)
+(* gomini.Run(q => ConjO(EqualO(x1,y1), ..., EqualO(xk,yk))): the answers (0 or 1), as Reflect.gval with registered pointers as
+   gvar i; checked against the transcribed algorithm: GCore.gunify folded over the equations, then GCore.grewrite of the query *)
+| CGRun (q : gval) (eqs : list (gval * gval)) (answers : list gval).
 
 Definition check08 (c : case08) : bool :=
   match c with
   | CReify q s ct out => opt_eqb term_eqb (reify_var F01 q (mkSt s ct)) (Some out)
   | CRun ds g n fuel outs => opt_eqb (list_eqb term_eqb) (run ds uf400 fuel n g) (Some outs)
   | CReifyS v out => opt_eqb subst_eqb (reifys F01 v []) (Some out)
+  | CGRun q eqs answers =>
+      match fold_left (fun acc e => match acc with GROk s => gunify F01 (fst e) (snd e) s | other => other end) eqs (GROk []) with
+      | GROk s => match grewrite F01 q s with
+                 | Some r => match answers with [a] => gval_eqb r a | _ => false end
+                 | None => false
+                 end
+      | GRFail => match answers with [] => true | _ => false end
+      | GROOF => false
+      end
   end.
